@@ -4,7 +4,7 @@ import os
 import z3
 from pyvc.api import *
 
-SPEC_IMPORTS = ['contracts.common']
+SPEC_IMPORTS = ['contracts.common', 'contracts.c19']
 SPEC_FUNCTIONS = ['doc_sort_key_defs']
 
 
@@ -88,6 +88,14 @@ FAMILIES = [
 ]
 
 CONTRACTS = [_key, _sorted_defs, _flag, _predef, _avoid]
+
+
+def dynamic_contracts(repo):
+    """the order in which the project is scanned (and with it every answer that is cut off by a file limit or takes the
+    first module found) is the directory listing order handed on by FolderIO.walk: its pruning keeps the kept folders
+    IN ORDER (contracts shared with C19; a set- or hash-ordered rewrite fails them)"""
+    from contracts import c19
+    return list(c19.WALK)
 
 
 def register(reg):
